@@ -20,7 +20,7 @@ mkdir -p "$work/inc/soplex" || machinery "cannot create scratch"
 hpp="$repo/src/soplex/spxlpbase_real.hpp"
 [ -f "$hpp" ] || machinery "spxlpbase_real.hpp not found under $repo"
 grep -q 'static R LPFreadValue(char\*& pos, SPxOut\* spxout)' "$hpp" || machinery "signature of LPFreadValue changed"
-grep -q 'value = atof(tmp);' "$hpp" || machinery "LPFreadValue no longer converts through atof(tmp): the recording hook of the driver does not apply"
+grep -q 'value = atof(tmp.data());' "$hpp" || machinery "LPFreadValue no longer converts through atof(tmp.data()): the recording hook of the driver does not apply"
 ver() { sed -n "s/.*set *( *SOPLEX_VERSION_$1 *\([0-9][0-9]*\).*/\1/p" "$repo/CMakeLists.txt" 2>/dev/null | head -1; }
 {
    echo '#ifndef __SPXCONFIG_H__'; echo '#define __SPXCONFIG_H__'; echo '#define SOPLEX_BUILD_TYPE "verif-bounded"'
